@@ -137,6 +137,14 @@ func init() {
 		fs.Parse(args)
 		rows := []flagRow{}
 		walkFlags(gcmd.RootCmd, nil, &rows)
+		indir, err := os.MkdirTemp(filepath.Dir(*out), "flin")
+		if err != nil {
+			fatal("%v", err)
+		}
+		defer os.RemoveAll(indir)
+		tplInputs := detInputs(indir, 5)
+		shortOf = map[string]string{}
+		collectShorthands(gcmd.RootCmd)
 		f, err := os.Create(*out)
 		if err != nil {
 			fatal("%v", err)
@@ -170,6 +178,13 @@ func init() {
 				// below it; an option whose cell does not hold the documented default is also exercised with each
 				// boolean option of the command switched on (its effect may depend on another option)
 				ctxs := flagContexts(r, rows)
+				// ... and on every valid invocation of the command known to the harness (the command templates of the
+				// determinism check, the option under test removed from them)
+				for _, tp := range detTemplates {
+					if base := templateFor(tp, r, tplInputs); base != nil {
+						ctxs = append(ctxs, base)
+					}
+				}
 				same, detail := true, ""
 				for _, base := range ctxs {
 					s2, d2 := omittedVsDefault(*bin, filepath.Dir(*out), base, r)
@@ -282,3 +297,97 @@ func omittedVsDefault(bin, scratch string, base []string, r flagRow) (bool, stri
 	return false, fmt.Sprintf("%v omitted: rc=%d out=%q err=%q files=%s | given %s: rc=%d out=%q err=%q files=%s",
 		base, a.rc, trunc(a.stdout), trunc(a.stderr), a.files, def, b.rc, trunc(b.stdout), trunc(b.stderr), b.files)
 }
+
+var shortOf map[string]string // "cmd path|flag" -> shorthand letter
+
+func collectShorthands(c *cobra.Command) {
+	var rec func(c *cobra.Command, path []string)
+	rec = func(c *cobra.Command, path []string) {
+		p := append(append([]string{}, path...), c.Name())
+		key := strings.Join(p[1:], " ")
+		subCommands[key] = true
+		visit := func(fl *pflag.Flag) {
+			if fl.Shorthand != "" {
+				shortOf[key+"|"+fl.Name] = fl.Shorthand
+			}
+		}
+		c.LocalNonPersistentFlags().VisitAll(visit)
+		c.PersistentFlags().VisitAll(visit)
+		for _, s := range c.Commands() {
+			rec(s, p)
+		}
+	}
+	rec(c, nil)
+}
+
+// the arguments of a command template, concretised, with option r removed; nil when the template is not an
+// invocation of the command that owns r (or of one of its sub-commands for a persistent option)
+func templateFor(tp detTemplate, r flagRow, in map[string]string) []string {
+	cmdToks := strings.Fields(r.Cmd)
+	if len(tp.args) < len(cmdToks) || tp.stdin != "" {
+		return nil
+	}
+	for i, t := range cmdToks {
+		if tp.args[i] != t {
+			return nil
+		}
+	}
+	// the command path of the template = its leading tokens that are not options / placeholders
+	n := 0
+	for n < len(tp.args) && !strings.HasPrefix(tp.args[n], "-") && !strings.HasPrefix(tp.args[n], "@") {
+		n++
+	}
+	if r.Kind != "persistent" && n != len(cmdToks) {
+		// a local option belongs to exactly this command (positional arguments may follow the path)
+		if n < len(cmdToks) {
+			return nil
+		}
+		// tokens after the command path that are not options are positional arguments: accept only if the path matches
+		full := strings.Join(tp.args[:len(cmdToks)], " ")
+		if full != r.Cmd {
+			return nil
+		}
+		// reject when the next token is a sub-command name (e.g. "reroot outgroup" for an option of "reroot")
+		if len(tp.args) > len(cmdToks) && !strings.HasPrefix(tp.args[len(cmdToks)], "-") && !strings.HasPrefix(tp.args[len(cmdToks)], "@") {
+			if _, isSub := subCommands[r.Cmd+" "+tp.args[len(cmdToks)]]; isSub {
+				return nil
+			}
+		}
+	}
+	long := "--" + r.Flag
+	short := ""
+	if s, ok := shortOf[r.Cmd+"|"+r.Flag]; ok {
+		short = "-" + s
+	}
+	out := []string{}
+	for i := 0; i < len(tp.args); i++ {
+		a := tp.args[i]
+		if a == long || (short != "" && a == short) {
+			if r.Typ != "bool" && i+1 < len(tp.args) {
+				i++ // its value
+			}
+			continue
+		}
+		if strings.HasPrefix(a, long+"=") {
+			continue
+		}
+		switch {
+		case a == "@O1" || a == "@O2":
+			out = append(out, a) // replaced per run below
+		case strings.HasPrefix(a, "@"):
+			out = append(out, in[a])
+		default:
+			out = append(out, a)
+		}
+	}
+	for i, a := range out {
+		if a == "@O1" {
+			out[i] = "out1.txt"
+		} else if a == "@O2" {
+			out[i] = "out2.txt"
+		}
+	}
+	return append(out, "--seed", "1")
+}
+
+var subCommands = map[string]bool{}
